@@ -2,6 +2,12 @@
 // entries, payload-faithful, correctly filtered).
 package main
 
-import "verifharness/drv"
+import (
+	"fmt"
 
-func main() { drv.Main(map[string]drv.Cmd{"probe": probe}) }
+	"verifharness/drv"
+)
+
+func main() {
+	drv.Main(map[string]drv.Cmd{"c07": runC07, "inventory": func([]string) error { fmt.Println(inventoryCoq()); return nil }})
+}
